@@ -154,7 +154,9 @@ impl Script for C13Script {
                     }
                     _ => err::IS_BOOTSTRAPPING,
                 };
-                Reply::Error { code, msg: "ignorable".into(), extra: x.buf, delay }
+                // Every ignorable answer is recognisable: "...#<index of the attempt>".
+                let idx = self.frames.get(&m).map(|v| v.len()).unwrap_or(1) - 1;
+                Reply::Error { code, msg: format!("ignorable#{idx}#"), extra: x.buf, delay }
             }
         }
     }
@@ -305,14 +307,14 @@ async fn main(plan: Plan) -> Outcome {
                 match api {
                     0 => match session.query_unpaged(st, ()).await {
                         Ok(qr) => Ok(client::check_marker_rows(qr, m)),
-                        Err(e) => Err((classify(&e), client::short_err(&e))),
+                        Err(e) => Err((classify(&e), format!("{e}"))),
                     },
                     2 => {
                         let mut p = sel.clone().unwrap();
                         p.set_is_idempotent(idempotent);
                         match session.execute_unpaged(&p, (i as i64, m as i64)).await {
                             Ok(qr) => Ok(client::check_marker_rows(qr, m)),
-                            Err(e) => Err((classify(&e), client::short_err(&e))),
+                            Err(e) => Err((classify(&e), format!("{e}"))),
                         }
                     }
                     4 => {
@@ -332,7 +334,7 @@ async fn main(plan: Plan) -> Outcome {
                                             }
                                             Err(scylla::errors::NextRowError::NextPageError(NextPageError::RequestFailure(e))) => {
                                                 let e = e.into_execution_error();
-                                                res = Err((classify(&e), client::short_err(&e)));
+                                                res = Err((classify(&e), format!("{e}")));
                                                 break;
                                             }
                                             Err(e) => {
@@ -350,7 +352,7 @@ async fn main(plan: Plan) -> Outcome {
                             },
                             Err(PagerExecutionError::NextPageError(NextPageError::RequestFailure(e))) => {
                                 let e = e.into_execution_error();
-                                Err((classify(&e), client::short_err(&e)))
+                                Err((classify(&e), format!("{e}")))
                             }
                             Err(e) => Err(("other", format!("{e}").chars().take(100).collect())),
                         }
@@ -362,7 +364,7 @@ async fn main(plan: Plan) -> Outcome {
                         b.set_is_idempotent(idempotent);
                         match session.batch(&b, ((1i64, m as i64), (2i64, m as i64))).await {
                             Ok(_) => Ok(Ok(())),
-                            Err(e) => Err((classify(&e), client::short_err(&e))),
+                            Err(e) => Err((classify(&e), format!("{e}"))),
                         }
                     }
                     _ => {
@@ -378,7 +380,7 @@ async fn main(plan: Plan) -> Outcome {
                             },
                             Err(PagerExecutionError::NextPageError(NextPageError::RequestFailure(e))) => {
                                 let e = e.into_execution_error();
-                                Err((classify(&e), client::short_err(&e)))
+                                Err((classify(&e), format!("{e}")))
                             }
                             Err(e) => Err(("other", format!("{e}").chars().take(100).collect())),
                         }
@@ -531,6 +533,17 @@ async fn main(plan: Plan) -> Outcome {
                     Err((c, text)) => {
                         if *c != "ignorable" && *c != "pool" && *c != "empty_plan" {
                             out.violation("c13.last_error", format!("call failed with a {c} error ({text}) but all attempts ended with ignorable errors: {ctx}"));
+                        }
+                        // "...the LAST error": the one of the execution that finished last
+                        // (any of those finishing within the margin of it; not judged if a
+                        // reset is among them - its error carries no tag).
+                        let tied: Vec<usize> = (0..frames.len()).filter(|k| frames[*k].respond_at + margin >= last_done).collect();
+                        let all_tagged = tied.iter().all(|k| matches!(frames[*k].out, Out::Ignorable(_)));
+                        if *c == "ignorable" && all_tagged && text.contains("ignorable#") && !tied.iter().any(|k| text.contains(&format!("ignorable#{k}#"))) {
+                            out.violation(
+                                "c13.last_error",
+                                format!("call failed with the error of an earlier execution ({}) although execution(s) {tied:?} finished last: {ctx}", text.chars().take(200).collect::<String>()),
+                            );
                         }
                     }
                 }
